@@ -21,6 +21,7 @@
 #include <qhttpengine/server.h>
 #include <qhttpengine/socket.h>
 using namespace QHttpEngine;
+extern long long g_vclock_offset_ns;
 void urlOracle(const QByteArray &stream, Out &out);
 
 namespace {
@@ -159,6 +160,48 @@ void runTls(const Scn &scn, Out &out)
         out.obs << "end";
         alarm(0);
         QStringList sink; h.obs = &sink;
+        delete srv;
+        pump(100);
+        return;
+    }
+    if (scn.toks.contains("slowread")) {
+        // a client that takes its time: it reads the beginning of a huge response, then nothing for eleven seconds
+        // (of virtual time: every timer that is due by then fires), then the rest.  Everything the application wrote
+        // before close() must arrive.
+        alarm(60);
+        LogHandler h(obs);
+        Server *srv = new Server(&h);
+        srv->listen(QHostAddress::LocalHost, 0);
+        QTcpSocket c;
+        c.setReadBufferSize(1 << 20);
+        c.connectToHost(QHostAddress::LocalHost, srv->serverPort());
+        c.waitForConnected(1000);
+        c.write("GET /big HTTP/1.1\r\n\r\n"); c.flush();
+        pump(800);
+        qint64 total = 0;
+        QByteArray first = c.read(1 << 20);
+        total += first.size();
+        pump(300);
+        g_vclock_offset_ns += 11LL * 1000000000LL;
+        pump(300);
+        c.setReadBufferSize(0);
+        int idleRounds = 0;
+        while (idleRounds < 40) {
+            pump(50);
+            qint64 n = c.readAll().size();
+            // (a read also re-arms the socket's notifier after the buffer limit was lifted)
+            if (n == 0 && c.bytesAvailable() == 0) { c.waitForReadyRead(5); n = c.readAll().size(); }
+            total += n;
+            idleRounds = n ? 0 : idleRounds + 1;
+        }
+        int hdr = first.indexOf("\r\n\r\n");
+        bool ok = first.startsWith("HTTP/1.0 200") && hdr > 0 && total == qint64(hdr) + 4 + 64LL * 1024 * 1024;
+        *obs << QString("x:46:%1").arg(ok ? "01" : "00");
+        if (!ok) *obs << QString("x:47:%1").arg(QString::number(total, 16));
+        out.obs << "end";
+        alarm(0);
+        QStringList sink; h.obs = &sink;
+        c.abort();
         delete srv;
         pump(100);
         return;
